@@ -17,16 +17,17 @@ import (
 	"bufio"
 	"bytes"
 	"fmt"
+	"math/big"
 	"net"
 	"os"
 	"os/exec"
 	"path/filepath"
+	"strconv"
 	"strings"
 	"time"
 
 	"github.com/coredhcp/coredhcp/handler"
 	"github.com/coredhcp/coredhcp/plugins/file"
-	"github.com/coredhcp/coredhcp/server"
 	"github.com/insomniacslk/dhcp/dhcpv4"
 	"github.com/insomniacslk/dhcp/dhcpv6"
 	"github.com/insomniacslk/dhcp/iana"
@@ -69,6 +70,40 @@ func tree6full(d dhcpv6.DHCPv6) string {
 	return strings.Join(sb, " ")
 }
 
+// pdView is what the library hands the prefix plugin of the IA_PDs of a message: per IA_PD its IAID and, per
+// IAPrefix, `hint e` (nil Prefix: prefix-length 0) or `hint p <ip> <ones> <bits>` (ones/bits of the mask, 0 0 for a nil mask)
+func pdView(d dhcpv6.DHCPv6) string {
+	msg, err := d.GetInnerMessage()
+	if err != nil {
+		return "pd -"
+	}
+	ias := msg.Options.IAPD()
+	var sb strings.Builder
+	fmt.Fprintf(&sb, "pd %d", len(ias))
+	for _, ia := range ias {
+		hs := ia.Options.Prefixes()
+		fmt.Fprintf(&sb, " iapd %s %d", hx(ia.IaId[:]), len(hs))
+		for _, h := range hs {
+			if h.Prefix == nil {
+				sb.WriteString(" hint e")
+				continue
+			}
+			ones, bits := h.Prefix.Mask.Size()
+			fmt.Fprintf(&sb, " hint p %s %d %d", hx(h.Prefix.IP), ones, bits)
+		}
+	}
+	return sb.String()
+}
+
+// blockOf is block i of /size blocks counted from base (computed here, not by the code under test)
+func blockOf(base net.IP, i, size int) net.IP {
+	v := new(big.Int).SetBytes(base.To16())
+	v.Add(v, new(big.Int).Lsh(big.NewInt(int64(i)), uint(128-size)))
+	out := make(net.IP, 16)
+	v.FillBytes(out)
+	return out
+}
+
 func runSysWorker() {
 	sc := bufio.NewScanner(os.Stdin)
 	sc.Buffer(make([]byte, 1<<20), 1<<26)
@@ -83,6 +118,7 @@ func runSysWorker() {
 	defer os.RemoveAll(dir)
 	nfile := 0
 	wedged := false
+	hasPrefix := false
 	for sc.Scan() {
 		f := strings.Fields(sc.Text())
 		res := "badop"
@@ -156,6 +192,27 @@ func runSysWorker() {
 				return "ok"
 			})
 			res = lineOracle(content) + " ; " + r
+		case "sprefix": // sprefix <poolhex> <sizehex>: the prefix plugin (arguments as text, like psetup)
+			poolArg, sizeArg := string(unhx(f[1])), string(unhx(f[2]))
+			oracle := "cidr:err"
+			if _, n, err := net.ParseCIDR(poolArg); err == nil {
+				ones, bits := n.Mask.Size()
+				oracle = fmt.Sprintf("cidr:%s/%d/%d", hx(n.IP), ones, bits)
+			}
+			if v, err := strconv.Atoi(sizeArg); err == nil {
+				oracle += fmt.Sprintf(" atoi:%d", v)
+			} else {
+				oracle += " atoi:err"
+			}
+			res = oracle + " " + guard(func() string {
+				h, err := builtin["prefix"].Setup6(poolArg, sizeArg)
+				if err != nil || h == nil {
+					return "err"
+				}
+				h6 = append(h6, h)
+				hasPrefix = true
+				return "ok"
+			})
 		case "srange": // srange <start> <end> <lease ns>: the range plugin on a fresh lease database
 			nfile++
 			db := filepath.Join(dir, fmt.Sprintf("leases%d.sqlite3", nfile))
@@ -175,7 +232,7 @@ func runSysWorker() {
 			}
 			r := watchdog(8*time.Second, func() string {
 				return guard(func() string {
-					caps := server.VerifHandle4(h4, atoi(f[1]), dg, atoi(f[2]), &net.UDPAddr{IP: net.IPv4(192, 0, 2, 1), Port: 68})
+					caps := handleOn4(h4, atoi(f[1]), dg, atoi(f[2]), &net.UDPAddr{IP: net.IPv4(192, 0, 2, 1), Port: 68})
 					if len(caps) == 0 {
 						return "drop"
 					}
@@ -205,6 +262,7 @@ func runSysWorker() {
 		case "sdg6":
 			dg := unhx(f[4])
 			parsed := "U"
+			pdOracle := ""
 			if d, err := dhcpv6.FromBytes(dg); err == nil {
 				mac := "-"
 				if m, err := dhcpv6.ExtractMAC(d); err == nil {
@@ -214,10 +272,13 @@ func runSysWorker() {
 					}
 				}
 				parsed = "P " + mac + " " + tree6full(d)
+				if hasPrefix {
+					pdOracle = " ; " + pdView(d)
+				}
 			}
 			r := watchdog(8*time.Second, func() string {
 				return guard(func() string {
-					caps := server.VerifHandle6(h6, atoi(f[1]), dg, atoi(f[2]), &net.UDPAddr{IP: net.IP(unhx(f[3])), Port: 546})
+					caps := handleOn6(h6, atoi(f[1]), dg, atoi(f[2]), &net.UDPAddr{IP: net.IP(unhx(f[3])), Port: 546})
 					if len(caps) == 0 {
 						return "drop"
 					}
@@ -243,7 +304,7 @@ func runSysWorker() {
 					return fmt.Sprintf("send %s %s %d %s %s", ifi, hx(cp.Peer.IP.To16()), cp.Peer.Port, tree6full(cp.Resp), rt)
 				})
 			})
-			res = parsed + " ; " + r
+			res = parsed + " ; " + r + pdOracle
 		}
 		if strings.HasSuffix(res, "HANG") {
 			wedged = true
@@ -324,6 +385,15 @@ func genSys(c *ctx) {
 		if !v6 && c.rng.Intn(2) == 0 {
 			cands = append(cands, plugSpec{name: "range"})
 		}
+		// prefix: a pool of a few blocks, so that it runs out
+		pdPool := []struct {
+			cidr string
+			size int
+		}{{"2001:db8:f000::/62", 64}, {"2001:db8:f000::/60", 61}, {"2001:db8:f000:40::/58", 60}, {"2001:db8:f000::/64", 64}, {"::ffff:0:0/110", 112}}[c.rng.Intn(5)]
+		hasPD := false
+		if v6 && c.rng.Intn(2) == 0 {
+			cands = append(cands, plugSpec{name: "prefix"})
+		}
 		c.rng.Shuffle(len(cands), func(a, b int) { cands[a], cands[b] = cands[b], cands[a] })
 		// the usual layout, often: server_id first
 		if c.rng.Intn(3) == 0 {
@@ -346,6 +416,15 @@ func genSys(c *ctx) {
 				size := uint32(1 + c.rng.Intn(6))
 				lease := []int64{60e9, 3600e9, 1500e6, 400e6, 0, 2499999999}[c.rng.Intn(6)]
 				group = append(group, fmt.Sprintf("srange %s %s %d", hx(u32ip(start)), hx(u32ip(start+size)), lease))
+				continue
+			}
+			if sp.name == "prefix" {
+				size := fmt.Sprint(pdPool.size)
+				if c.rng.Intn(12) == 0 {
+					size = pick(c, []string{"129", "-1", "x", "20"})
+				}
+				group = append(group, fmt.Sprintf("sprefix %s %s", hx([]byte(pdPool.cidr)), hx([]byte(size))))
+				hasPD = true
 				continue
 			}
 			if sp.name == "file" {
@@ -435,6 +514,41 @@ func genSys(c *ctx) {
 				}
 				if c.rng.Intn(4) == 0 {
 					m.AddOption(&dhcpv6.OptionGeneric{OptionCode: dhcpv6.OptionRapidCommit})
+				}
+				if hasPD && c.rng.Intn(5) != 0 || c.rng.Intn(8) == 0 {
+					// IA_PDs: none, one or several, each with no hint, a length-only hint, a block of the pool (free, or
+					// delegated to this client or another), prefix-length 0, more than 128, out of the pool
+					_, pn, _ := net.ParseCIDR(pdPool.cidr)
+					pones, _ := pn.Mask.Size()
+					nblk := 1 << uint(pdPool.size-pones)
+					for k := []int{1, 1, 1, 2, 3}[c.rng.Intn(5)]; k > 0; k-- {
+						body := []byte{0, 0, 0, byte(1 + c.rng.Intn(3)), 0, 0, 0, 0, 0, 0, 0, 0}
+						for nh := []int{0, 0, 1, 1, 1, 2, 3}[c.rng.Intn(7)]; nh > 0; nh-- {
+							blk := blockOf(pn.IP, c.rng.Intn(nblk), pdPool.size)
+							var ob []byte
+							switch c.rng.Intn(9) {
+							case 0:
+								ob = rawIAPrefix(net.IPv6zero, 0)
+							case 1:
+								ob = rawIAPrefix(blk, 0)
+							case 2:
+								ob = rawIAPrefix(net.IPv6zero, pdPool.size)
+							case 3:
+								ob = rawIAPrefix(net.IPv6zero, []int{48, 127, 128, 1}[c.rng.Intn(4)])
+							case 4:
+								ob = rawIAPrefix(blk, []int{129, 200, 255}[c.rng.Intn(3)])
+							case 5:
+								ob = rawIAPrefix(net.ParseIP("2001:db8:e000::"), pdPool.size)
+							case 6:
+								ob = rawIAPrefix(blk, pdPool.size+1+c.rng.Intn(3))
+							default:
+								ob = rawIAPrefix(blk, pdPool.size)
+							}
+							body = append(body, 0, byte(dhcpv6.OptionIAPrefix), 0, byte(len(ob)))
+							body = append(body, ob...)
+						}
+						m.AddOption(&dhcpv6.OptionGeneric{OptionCode: dhcpv6.OptionIAPD, OptionData: body})
+					}
 				}
 				var d dhcpv6.DHCPv6 = m
 				for r := c.rng.Intn(4) / 2 * (1 + c.rng.Intn(2)); r > 0; r-- {
